@@ -128,8 +128,8 @@ class StubDecompressor(Native):
         if w.progress == "adversarial" and eng.branch(eng.compare(ast.Eq(), r, 0)) and eng.branch(eng.compare(ast.Eq(), c, 0)):
             # nothing produced, nothing consumed: the caller's loop state is unchanged by this step
             self.stalls += 1
-            if self.stalls >= 2:
-                raise NoProgress("decoder of folder %d returned nothing and consumed nothing twice in a row" % self.k)
+            if self.stalls >= 4:
+                raise NoProgress("decoder of folder %d returned nothing and consumed nothing %d times in a row" % (self.k, self.stalls))
         self.consumed = eng.binop(ast.Add(), self.consumed, c)
         fp.seek(eng, c, 1)
         ch = Chunk(self.k, self.produced, r)
